@@ -319,5 +319,6 @@ Definition check_got_vs_want (fl : flags) (want got_stdout : str) (ev : got_eval
   | EvalReprRaises =>
       if is_empty got_stdout then GW_extract_repr
       else if check_output fl got_stdout want then GW_ok
-      else GW_repr_escapes      (* the unguarded repr() on the fallback path raises *)
+      else GW_extract_repr      (* the fallback repr() is guarded too since fix F9 (71c069e);
+                                   GW_repr_escapes is no longer produced by the model *)
   end.
